@@ -166,6 +166,11 @@ func checkOutboundFlows(r *Result, prop string) []Violation {
 							m.collided = true
 						}
 					}
+				case refcodec.PUBREL:
+					// ... nor must the PUBREL that completes the client's own QoS 2 publish with that identifier
+					if m := u[e.Read.PID]; m != nil {
+						m.collided = true
+					}
 				}
 			}
 		case "pkt":
@@ -316,8 +321,11 @@ func checkOutboundFlows(r *Result, prop string) []Violation {
 					}
 					out = append(out, viol(p, "pubrel-not-resent", fmt.Sprintf("conn %d: message %q (id %d) was past PUBREC (PUBREL before the disconnect: %s); PUBREL was not resent after reconnect", rc.conn.Idx, m.payload, pid, first), q, "ver", verClass(rc.conn.Ver), "pubrel", first, "rm_limited", sessRMLimited(r, rc.sess, rc.seq)))
 				}
-				if len(pubs[pid]) > 0 {
-					out = append(out, viol(p, "publish-resent-after-pubrec", fmt.Sprintf("conn %d: message %q (id %d) was past PUBREC but PUBLISH was sent again", rc.conn.Idx, m.payload, pid), pubs[pid][0].Seq))
+				for _, pr := range pubs[pid] {
+					if payloadIDOf(pr.P.Payload) == m.payload { // (the identifier may by now carry another message)
+						out = append(out, viol(p, "publish-resent-after-pubrec", fmt.Sprintf("conn %d: message %q (id %d) was past PUBREC but PUBLISH was sent again", rc.conn.Idx, m.payload, pid), pr.Seq))
+						break
+					}
 				}
 			}
 		}
@@ -439,7 +447,7 @@ func checkC10(r *Result) []Violation {
 						// both directions in one map, a known defect), or is the identifier simply handed out twice?
 						same := "false"
 						for _, e := range r.H.Evs {
-							if e.Kind == "in" && e.Last && e.Conn == c.Idx && e.Pkt != nil && e.Pkt.Type == refcodec.PUBLISH && e.Pkt.Qos > 0 && e.Pkt.PacketID == p.PacketID && e.Seq < it.pr.Seq {
+							if e.Kind == "in" && e.Last && e.Conn == c.Idx && e.Pkt != nil && ((e.Pkt.Type == refcodec.PUBLISH && e.Pkt.Qos > 0) || e.Pkt.Type == refcodec.PUBREL) && e.Pkt.PacketID == p.PacketID && e.Seq < it.pr.Seq {
 								same = "true"
 							}
 						}
@@ -516,6 +524,7 @@ func checkC11(r *Result) []Violation {
 		own := map[uint16]byte{}         // client -> broker QoS>0 publishes not yet completed
 		ownMax := 0
 		resent := map[uint16]bool{} // packet ids the broker sent with DUP on this connection (resends after a reconnect)
+		everPublished := map[uint16]bool{}
 		inboundQos2Done := 0        // PUBCOMP written by the broker: inbound QoS 2 exchanges completed on this connection
 		clientPubrecs := 0   // PUBREC sent by the client: outbound QoS 2 exchanges past their first half
 		for _, it := range items {
@@ -526,6 +535,7 @@ func checkC11(r *Result) []Violation {
 				case refcodec.PUBLISH:
 					if p.Qos > 0 {
 						outstanding[p.PacketID] = true
+						everPublished[p.PacketID] = true
 						if p.Dup {
 							resent[p.PacketID] = true
 						}
@@ -551,6 +561,10 @@ func checkC11(r *Result) []Violation {
 				case refcodec.PUBCOMP:
 					inboundQos2Done++
 					delete(own, p.PacketID)
+				case refcodec.PUBREL:
+					if !everPublished[p.PacketID] {
+						resent[p.PacketID] = true // a PUBREL for a message this connection never carried: resent on resume
+					}
 				case refcodec.PUBREC:
 					if p.ReasonCode >= 0x80 {
 						delete(own, p.PacketID)
